@@ -51,6 +51,27 @@ state from before the fork).  Not undone: ``_patch_random`` (harmless: with a pr
 ``random.Random().seed()`` uses ``SeedingConfiguration.seed``), the state of ``randomness.RNG`` and
 ``random`` (checks seed them with drawn ints), lazily imported pynguin modules.
 
+Patterns and gotchas (learned while building C12/C30/C31/C32 on this helper):
+
+* Fork from an open session.  When a case needs several pristine processes (baselines, histories that wreck stdout or
+  leave threads behind), open the session ONCE in the shard process, never execute a test there, and run each history in
+  ``vf.iso.forked(lambda: ...)`` — the child inherits the ready session (fork ~10 ms vs ~150 ms set-up).  See
+  ``checks/c30_execution_isolation.py``.
+* A SUT global bound to a *module* (``import dataclasses``) makes ``generate_test_cluster`` analyse that module
+  transitively (14-50 s).  Generated SUTs should use ``from x import y`` or function-local imports.
+* ``except ...: return`` followed by an ``if`` after the ``try`` makes BRANCH instrumentation fail on the unchanged tree
+  ("Failed to compute stacksize"); the module then does not load and ``open()`` raises ``SessionSetupError``.
+* DynaMOSA accepts only BRANCH (``_verify_config`` raises ``ConfigurationException``); use ``algorithm="MOSA"`` for LINE.
+* Execution budgets: the timeout of one execution is ``min(maximum_test_execution_timeout, per_statement * size)`` —
+  1 s for a one-statement test with the defaults.  On a loaded machine that produces spurious ``timeout=True`` results;
+  checks that are not about timeouts should raise both (``stopping__maximum_test_execution_timeout=20,
+  stopping__test_execution_time_per_statement=10``) and still treat a timeout flag as inconclusive.
+* ``_instantiate_test_generation_strategy`` registers stopping conditions as executor observers;
+  ``s.executor.clear_observers()`` if they are in the way.  ``instantiate=False`` skips the algorithm altogether.
+* The factory's default ``test_creation`` weights produce wildly ill-typed calls (most tests raise ``TypeError``);
+  ``test_creation__none_weight=0, test_creation__any_weight=0, test_creation__negate_type=0.0,
+  test_creation__use_random_object_for_call=0.0`` gives mostly well-typed tests.
+
 Rules for users (see README_CHECKS.md): all randomness must come from Hypothesis draws — seed pynguin's
 RNG with a drawn int (``s.seed_rng(n)``; ``random_test_case`` does it for you); module names of
 *generated* SUTs must be unique per case; SUTs must obey the corpus rule of DESIGN §2.7.
